@@ -94,6 +94,11 @@ def find_constant_groups(constants: list[tuple[Path, ConstantInfo]]) -> list[Con
     """
     if not constants:
         return []
+    # The groups (and the order of the places a message lists) must not depend on the order
+    # in which the files happened to be linted
+    constants = sorted(
+        constants, key=lambda item: (str(item[0]), item[1].line_number, item[1].name)
+    )
     locations = _build_locations(constants)
     exact_groups = _group_by_exact_name(locations)
     return _merge_fuzzy_groups(exact_groups)
